@@ -191,7 +191,7 @@ def len_case_trim_ok(n0: bool, n1: bool, n2: bool, c00: bool, c01: bool, c10: bo
     return concrete(_case_trim, sel(n0, n1, n2), sel(c00, c01), sel(c10, c11), sel(c20, c21), sel(c30, c31))
 
 
-VALS = [0, 1, -2, 3.5, True, False, 'a', '', 'TRUE', sh.EMPTY, 12, 'aB']
+VALS = [0, 1, -2, 3.5, True, False, 'a', '', 'TRUE', sh.EMPTY, 12, 'aB', '7', '-1.5', '1E+999']
 
 
 def disp(v):
